@@ -150,6 +150,9 @@ VARIANTS = [
     V( 'resolve-unprotected-in-mr', DEVICE, "target = self.route( data, fail=self.ROUTE_RAISE )", "target		= self.route( data, fail=self.ROUTE_RAISE )", silent=[ 'S-RESOLVE' ] ),
     V( 'pathsyntax-numeric-separator', CLIENT, "path = symbolic if symbolic else ('@' + '/'.join( numeric ))", "path			= symbolic if symbolic else ('@' + ':'.join( numeric ))", fires=[ 'T-PATHSYNTAX' ] ),
     V( 'reply-converting-handler', LOGIX, "log.error( \"EtherNet/IP CIP error %s\\n%s\", where,\n ( '' if log.getEffectiveLevel() >= logging.NORMAL\n else ''.join( traceback.format_exception( *sys.exc_info() ))))\n raise", "log.error( \"EtherNet/IP CIP error %s\", where )\n        data.response		= dotdict( data.request )\n        data.response.enip	= dotdict( data.request.get( 'enip', {} ))\n        data.response.enip.status= 0x01\n        return True", silent=[ 'E-REPLY' ], why='a status-converting handler repairs known finding M' ),
+    V( 'chain-stripped-block', TNET, "source.chain( msg )", "msg			= msg.lstrip( b'\\n' )\n                source.chain( msg )", fires=[ 'P-CHAIN' ] ),
+    V( 'chain-stateful-default', TNET, "source = None, # Provide a cpppo.chainable, if desire, to receive into and parse from", "source	= cpppo.chainable(),", fires=[ 'P-CHAIN' ] ),
+    V( 'shared-parser-rewired', LOGIX, "def setup_reset():", "def setup_rewire():\n    Logix.parser.initial[True] = None\n\ndef setup_reset():", fires=[ 'R-LOCK-2' ] ),
     # ---- round-2 rules
     V( 'regex-key-collision', AUTO, "while add in machine.map or add in states:", "while add in machine.map:", fires=[ 'X-FROMREGEX' ], why='defect K' ),
     V( 'regex-key-dead-collision', AUTO, "while add in machine.map or add in states:", "while add in states:", fires=[ 'X-FROMREGEX' ] ),
